@@ -90,13 +90,27 @@ pub fn type_session(rng: &mut Rng, cfg: &Cfg, p: &TypistParams) -> Vec<TOp> {
     for _ in 0..p.actions {
         t += rng.range(5, 400) * MS;
         // Pause / PrintScreen bursts: back-to-back multi-sequence keys
-        if !(cfg.set == 1 && cfg.xt) && rng.chance(if p.style == Style::Bursts { 30 } else { 2 }, 100) {
+        if rng.chance(if p.style == Style::Bursts { 30 } else { 3 }, 100) {
+            let native1 = cfg.set == 1 && cfg.xt;
             let burst: &[(u8, u8, bool)] = if rng.bool() {
-                // Pause: E1 14 77 E1 F0 14 F0 77
-                &[(2, 0x14, false), (0, 0x77, false), (2, 0x14, true), (0, 0x77, true)]
+                if native1 {
+                    // Pause on a native Set 1 keyboard: E1 1D 45 E1 9D C5
+                    &[(2, 0x1D, false), (0, 0x45, false), (2, 0x1D, true), (0, 0x45, true)]
+                } else {
+                    // Pause: E1 14 77 E1 F0 14 F0 77
+                    &[(2, 0x14, false), (0, 0x77, false), (2, 0x14, true), (0, 0x77, true)]
+                }
             } else if rng.bool() {
-                // PrintScreen make: E0 12 E0 7C
-                &[(1, 0x12, false), (1, 0x7C, false)]
+                if native1 {
+                    // PrintScreen make: E0 2A E0 37
+                    &[(1, 0x2A, false), (1, 0x37, false)]
+                } else {
+                    // PrintScreen make: E0 12 E0 7C
+                    &[(1, 0x12, false), (1, 0x7C, false)]
+                }
+            } else if native1 {
+                // PrintScreen break: E0 B7 E0 AA
+                &[(1, 0x37, true), (1, 0x2A, true)]
             } else {
                 // PrintScreen break: E0 F0 7C E0 F0 12
                 &[(1, 0x7C, true), (1, 0x12, true)]
